@@ -15,6 +15,55 @@ CLUSTER = R + "Cluster"
 FINDV = R + "vertex_fitting::find_vertices"
 
 
+def guarded_local(prog, b, bi, bname):
+    an = analysis(prog, b, positions=True)
+    sy = Sym(prog, an, slice_param=99)
+    wrapped = None
+    for bj, si, st in b.stmts():
+        if bj == bi and st["k"] == "assign" and st["rv"]["k"] == "aggr" and st["rv"].get("ak") == "adt" and st["rv"]["p"] == CLUSTER:
+            an.terms._pos = (bj, si)
+            ops = strip(an.terms.rvalue(st["rv"]))[2]
+            if len(ops) == 1 and strip(ops[0])[0] == "var":
+                wrapped = (strip(ops[0])[1], si)
+    if wrapped is None:
+        return False
+    l, csi = wrapped
+    defs = an.terms.defs.whole[l]
+    if an.terms.defs.partial[l] or not defs:
+        return False
+    for d in defs:
+        if sy.name(sy._def_term(d)) != bname:
+            return False
+    for (s_, t_) in an.dominating_edges(bi):
+        d, rel, vals = an.edge_atom(s_, t_)
+        from ..guards import truth_of
+        tr = truth_of(rel, vals)
+        c = as_cmp(strip(d), tr) if tr is not None else None
+        if c is None:
+            continue
+        op, x, y = c
+        if op in ("Le", "Lt"):
+            op, x, y = {"Le": "Ge", "Lt": "Gt"}[op], y, x
+        x, y = strip(x), strip(y)
+        if not (op == "Ge" and y == ("param", 2) and x[0] == "call" and short(x[1]) == "Vec::<T, A>::len"):
+            continue
+        v = unmut(x[2][0])
+        if not (v[0] == "var" and v[1] == l):
+            continue
+        # no definition of the local between the guard (terminator of s_) and the construction
+        between = False
+        for (db, dsi, _) in defs:
+            if db == bi and dsi != "t" and dsi < csi:
+                between = True
+            elif db != bi and db != s_ and b.can_reach(t_, db, avoid=[s_]) and b.can_reach(db, bi, avoid=[s_]):
+                between = True
+            elif db == s_ and dsi == "t":
+                between = True
+        if not between:
+            return True
+    return False
+
+
 def run(prog, tier, res):
     res.explanation = ("The public clustering wrapper passes the stated thresholds; a Cluster is only constructed behind the "
                        "size guard and nowhere else; the single-linkage test compares SpacePoint::distance with <= max_distance; "
@@ -93,11 +142,17 @@ def run(prog, tier, res):
         res.functions.add(CL)
         bi = sites[0][1]
         ok = False
+        bname = "%s(mut(HoughSpaceAccumulator{arg3,arg4,IndexMap::<K, V>::new()}),arg5)" % BEST
         for (d, rel, vals) in an.atoms_at(bi):
             for a in sy.atoms(d, rel, vals):
                 s = atom_str(a)
-                if s == "-arg2 + len(%s(mut(HoughSpaceAccumulator{arg3,arg4,IndexMap::<K, V>::new()}),arg5)) >= 0" % BEST:
+                if s == "-arg2 + len(%s) >= 0" % bname:
                     ok = True
+        if not ok:
+            # the same with the candidate held in a reassigned local (`let mut c = best(); while c.len() >= n { push(Cluster(c));
+            # c = best(); }`): the guard reads the local the construction wraps, no definition of it lies between the two,
+            # and every definition of it is the best_cluster call
+            ok = guarded_local(prog, b, bi, bname)
         if ok:
             res.hit(R2)
         else:
